@@ -4,7 +4,7 @@ use crate::common::*;
 use konst::string as kstr;
 use konst::string::Pattern;
 
-const FUEL: usize = 64;
+const FUEL: usize = 400;
 
 #[derive(Clone, Copy, PartialEq)]
 enum Dir {
@@ -227,7 +227,7 @@ pub fn run(cfg: &Cfg) -> (&'static str, Report, String, String) {
     rep.merge(par_for(cfg, nrand, |i, r| {
         let mut rng = Rng::new(cfg.seed.wrapping_mul(104_729).wrapping_add(i as u64));
         let al: &[&str] = if rng.chance(1, 2) { &[",", "a"] } else { &[",", "a", "ñ", ";"] };
-        let s = random_string(&mut rng, al, cfg.by(10, 40, 40));
+        let s = random_string(&mut rng, al, if i % 8 == 7 { cfg.by(30, 200, 300) } else { cfg.by(10, 40, 40) });
         let d = random_string(&mut rng, al, 3);
         if s.split(d.as_str()).count() < FUEL {
             pair(r, &s, &d);
